@@ -53,6 +53,7 @@ let run (cases : case list) =
         | ["rscript"; s] -> Some (ORScript (parse_script s))
         | ["wscript"; s] -> Some (OWScript (parse_script s))
         | ["wire"] -> None
+        | ["smallbuf"] -> None
         | _ -> failwith ("rw: bad op " ^ op)) in
       if !agree then begin
         let before = List.length !st.rws_log in
@@ -62,7 +63,7 @@ let run (cases : case list) =
         let evs = List.rev (take nnew s'.rws_log) in
         let line = String.concat " " (List.map fmt_ev evs
           @ [Printf.sprintf "inflight=r%dw%d" (if s'.rws_rd = None then 0 else 1) (if s'.rws_wr = None then 0 else 1)]
-          @ (if mop = None then [Printf.sprintf "wire=%d:%d" (List.length s'.rws_wire) (checksum s'.rws_wire)] else [])) in
+          @ (if toks = ["wire"] then [Printf.sprintf "wire=%d:%d" (List.length s'.rws_wire) (checksum s'.rws_wire)] else [])) in
         visit (List.length s'.rws_in, s'.rws_eof, s'.rws_rscript, s'.rws_wscript,
                (match s'.rws_rd with Some p -> Some (p.rd_all, p.rd_len, p.rd_sofar) | None -> None),
                (match s'.rws_wr with Some p -> Some (p.wr_all, List.length p.wr_buf, p.wr_sofar) | None -> None))
